@@ -9,7 +9,7 @@
 (***************************************************************************)
 EXTENDS ChangePoints
 
-CONSTANTS MaxLen, MaxRegs, MaxDepth, Alphabet, Palette, MaxTotalLen
+CONSTANTS MaxLen, MaxRegs, MaxDepth, Alphabet, Palette, MaxTotalLen, WithParse
 
 VARIABLES ctab, ninst, depth, ev
 cvars == <<ctab, ninst, depth, ev>>
@@ -121,6 +121,31 @@ Replace ==
           [Ev("replace", x, [old |-> <<c>>, new |-> y, count |-> cnt, m |-> "replace", inplace |-> 0], <<r>>, 0)
              EXCEPT !.o = [pyout |-> "ok", py |-> [t |-> "s", v |-> g[1]]]], 4 * ninst + 8)
 
+\* AnsiString(text with escape sequences), AnsiString(str(s)) and simplify() through the transcribed set_ansi_str
+SgrBodies == {<< >>, <<48>>} \cup {TextTable[t] : t \in Palette} \cup {TextTable[a] \o <<SEMI>> \o TextTable[b] : a \in Palette, b \in Palette}
+ParseItems == {<<c>> : c \in Alphabet} \cup {<<ESC, LBRK>> \o body \o <<LOWM>> : body \in SgrBodies}
+ParseInputs == {a \o b \o c : a \in ParseItems, b \in ParseItems \cup {<< >>}, c \in ParseItems \cup {<< >>}}
+
+NewParsed ==
+  \E input \in ParseInputs :
+    (\E i \in DOMAIN input : input[i] = ESC) /\
+    LET r == NextFree g == CPSetAnsiStrFrom(input, ninst) IN
+    Do([ctab EXCEPT ![r] = [k |-> "S", t |-> g[1], f |-> g[2]]],
+       Ev("new", 0, [cls |-> "S", src |-> 0, text |-> input, S |-> << >>, inplace |-> 0], <<r>>, 0), 40)
+
+Reparse ==
+  \E x \in Live :
+    LET r == NextFree g == CPSetAnsiStrFrom(CPRender(ctab[x].t, ctab[x].f, <<1, 0, 1>>), ninst) IN
+    Do([ctab EXCEPT ![r] = [k |-> "S", t |-> g[1], f |-> g[2]]],
+       Ev("reparse", x, [cls |-> "S", inplace |-> 0], <<r>>, 0), 40)
+
+Simplify ==
+  \E x \in Live :
+    LET g == CPSetAnsiStrFrom(CPRender(ctab[x].t, ctab[x].f, <<1, 0, 1>>), ninst) IN
+    Do([ctab EXCEPT ![x] = [k |-> "S", t |-> g[1], f |-> g[2]]],
+       [Ev("simplify", x, [inplace |-> 1], << >>, 0)
+          EXCEPT !.o = [pyout |-> "ok", parsable |-> IF TabParsable(g[2]) THEN 1 ELSE 0, q2 |-> << >>, rt |-> << >>]], 40)
+
 \* to_str under the 8 flag combinations; the rendering is a stuttering step of the tables
 Render ==
   \E x \in Live, opt \in {0, 1}, rs \in {0, 1}, re \in {0, 1} :
@@ -135,6 +160,7 @@ Next ==
   /\ depth < MaxDepth
   /\ \/ (Free # {} /\ (New \/ Slice \/ Copy \/ Add \/ Pad \/ Replace))
      \/ Apply \/ Remove \/ IAdd \/ Render
+     \/ (WithParse /\ ((Free # {} /\ (NewParsed \/ Reparse)) \/ Simplify))
 
 Spec == Init /\ [][Next]_cvars
 
